@@ -24,6 +24,7 @@ func init() {
 		Rules: []RuleDef{
 			{ID: "C10.R35", Text: "a member acts on the newest numbering it was told: every bus-fed membership records each announcement first and unconditionally, and GetInfo only reads — a waiter woken late cannot write an older numbering over a newer one (same rule as C11.R12)", Run: latestInfo},
 			{ID: "C10.R34", Text: "members with the same group configuration judge liveness alike: no package-level state is written after initialisation — heart-beat settings are per client, not shared between the consumers of one process (same rule as C02.R28)", Run: globalsFrozen},
+			{ID: "C10.R36", Text: "every announcement keeps reaching the membership listener: no topic of the event bus has two once-only subscriptions (the bus removes the second by a stale position and drops the listener subscribed after them)", Run: onceSubscriptionsAlone},
 			{ID: "C10.R1", Text: "publish only on change: Bus.Publish(topic, x) is dominated by x.IsChanged(current)=true; IsChanged ⇔ other==nil ∨ MemberNumber≠ ∨ TotalMembers≠", Run: c10r1},
 			{ID: "C10.R2", Text: "bus contract: one topic constant; every publish passes one *membership.Model; every subscriber is func(*membership.Model)", Run: c10r2},
 			{ID: "C10.R3", Text: "numbering formulas of the four mechanisms (self index+1 / len; leader 1, follower i+2 of the join-ordered list, total len+1; config / ordinal+1)", Run: c10r3},
